@@ -111,6 +111,7 @@ fn exercise_deep(bytes: &[u8]) -> String {
         if std::env::var("VERIF_TRACE").is_ok() { eprintln!("exercise_deep {name}"); }
         let r = catch(|| serde_saphyr::from_slice_with_options::<T>(bytes, opts.clone()).map(|_| ()).map_err(|e| render_all(&e)));
         if r.is_err() { return tag("slice"); }
+        if std::env::var("VERIF_TRACE").is_ok() { eprintln!("  slice done"); }
         let r = catch(|| serde_saphyr::from_reader_with_options::<_, T>(std::io::Cursor::new(bytes.to_vec()), opts.clone()).map(|_| ()).map_err(|e| render_all(&e)));
         if r.is_err() { return tag("reader"); }
         if let Ok(text) = std::str::from_utf8(bytes) {
@@ -211,7 +212,8 @@ fn worker() -> i32 {
         let bytes = unhex(parts.next().unwrap_or("x")).unwrap_or_default();
         // run on a thread with an 8 MiB stack: the property's stack clause
         let b2 = bytes.clone();
-        let h = std::thread::Builder::new().stack_size(8 << 20).spawn(move || if deep { exercise_deep(&b2) } else { exercise(&b2, reader_too) }).unwrap();
+        let stack_kib: usize = std::env::var("VERIF_STACK_KIB").ok().and_then(|v| v.parse().ok()).unwrap_or(8 << 10);
+        let h = std::thread::Builder::new().stack_size(stack_kib << 10).spawn(move || if deep { exercise_deep(&b2) } else { exercise(&b2, reader_too) }).unwrap();
         let status = h.join().unwrap_or_else(|_| "panic thread".into());
         let _ = writeln!(out, "done {idx} {status}");
         let _ = out.flush();
